@@ -129,7 +129,7 @@ def run_program(args) -> Dict[str, Any]:
             env = dict(os.environ, PYTHONHASHSEED=str(17 + idx))
             r = subprocess.run(["/venv/bin/python", "-m", "pyrtma.compile", "-i", os.path.relpath(ry, out2), "--py", "--c", "--js", "--mat", "--combined",
                                 "--no_core_import", "-o", ".", "-n", "gen"], cwd=out2, capture_output=True, text=True, timeout=300,
-                               env=dict(env, PYTHONPATH="/repo/src"))
+                               env=dict(env, PYTHONPATH=__import__("os").environ.get("VF_REPO", "/repo") + "/src"))
             res["second_compile_rc"] = r.returncode
             diff = []
             for fn in ("gen.py", "gen.h", "gen.js", "gen.m", "gen_combined.yaml"):
